@@ -263,6 +263,35 @@ impl<T> Index<usize> for Win<'_, T> {
     }
 }
 
+/// A lookup into a virtual sequence whose first item has index `base`.
+pub struct Far<'a, T> {
+    pub data: &'a [T],
+    pub base: usize,
+}
+
+impl<T> Index<usize> for Far<'_, T> {
+    type Output = T;
+    fn index(&self, index: usize) -> &T {
+        match index.checked_sub(self.base) {
+            Some(i) if i < self.data.len() => &self.data[i],
+            _ => panic!("far lookup: index {} outside {}..{}", index, self.base, self.base + self.data.len()),
+        }
+    }
+}
+
+impl Call {
+    /// Subtracts the index shifts of `Far` lookups.
+    pub fn unshift(self, so: usize, sn: usize) -> Option<Call> {
+        Some(match self {
+            Call::Equal(o, n, l) => Call::Equal(o.checked_sub(so)?, n.checked_sub(sn)?, l),
+            Call::Delete(o, l, n) => Call::Delete(o.checked_sub(so)?, l, n.checked_sub(sn)?),
+            Call::Insert(o, n, l) => Call::Insert(o.checked_sub(so)?, n.checked_sub(sn)?, l),
+            Call::Replace(o, ol, n, nl) => Call::Replace(o.checked_sub(so)?, ol, n.checked_sub(sn)?, nl),
+            Call::Finish => Call::Finish,
+        })
+    }
+}
+
 // ------------------------------------------------------------- recording hook
 
 #[derive(Clone, Copy, Debug, PartialEq, Eq, Serialize, Deserialize)]
